@@ -202,6 +202,11 @@ pub fn enum_join(_s: u64) -> Vec<String> {
     v.push((vec![var(2, "$L"), atom(".")], mk(&[(1, atom("coffee")), (2, mk_list(&[var(1, "$X"), atom("tea")], None))])));
     v.push((vec![mk_list(&[atom("a")], Some(var(1, "$T")))], mk(&[(1, mk_list(&[atom("b"), atom(",")], None))])));
     v.push((vec![SInteger(3), SFloat(1.5), atom("x")], vec![]));
+    // punctuation that is only known after resolution: a list ELEMENT bound to `,` `?` `!`, and a top-level variable bound to `.`
+    v.push((vec![mk_list(&[atom("coffee"), var(1, "$C"), atom("tea"), atom("or"), atom("juice")], None)], mk(&[(1, atom(","))])));
+    v.push((vec![atom("Would you like"), var(2, "$L")], mk(&[(1, atom("?")), (2, mk_list(&[atom("tea"), var(1, "$Q")], None))])));
+    v.push((vec![mk_list(&[atom("Hello")], Some(var(2, "$T")))], mk(&[(1, atom("!")), (2, mk_list(&[atom("there"), var(1, "$E")], None))])));
+    v.push((vec![atom("end"), var(1, "$P")], mk(&[(1, atom("."))])));
     v.iter().map(|(ts, ss)| format!("ss={};in={}", ser_ss(ss), ser_list(ts))).collect()
 }
 pub fn check_join(case: &str) -> Result<(), String> {
